@@ -11,7 +11,7 @@ CLAIMS = {
         "is forwarded at once with repeat=0, orig_source = the sender and then queued, other types change nothing; every re-send is "
         "numbered one more than the previous, carries the latest data with repeat=n, is preceded by set_output(n) and never exceeds "
         "count; a new datum restarts the numbering; Python's duplicate-keyword rule at send(**data, repeat=n) is modelled (this found "
-        "the chained-Repeat defect, fixed in /repo).",
+        "the chained-Repeat defect, fixed in /repo). Event.__init__: repeat= puts a new Repeat block (given pace and count) in front of the destination, count needs repeat; Event.typecheck.",
    note="Trusted: pyvc encoding, z3, asyncio.Queue/wait_for interface contracts (FIFO, timeout), set_output (C02), time_period (C19). "
         "Unclaimed: the pace in seconds, Event(..., repeat=) construction, nothing re-sent after stop (C08)."),
  'C19': dict(
@@ -66,7 +66,7 @@ CLAIMS = {
         "quantifier-free timer invariant (ghost: number of live handles of the FSM = 1 iff _active_timer is live, else 0): effective "
         "duration = event item, else instance/class value; none is an error; INF never; <= 0 delivers at once without a handle; "
         "otherwise exactly one handle due at now+d calling event(timed_event); leaving/re-entering/stop cancels it, so at most one "
-        "timer is pending and nothing is pending after stop(); Timer.cond_start/cond_stop/calc_output against their truth tables.",
+        "timer is pending and nothing is pending after stop(); Timer.cond_start/cond_stop/calc_output against their truth tables. Timer.__init__: t_period excludes t_on/t_off and becomes t_on = t_off = period/2 in the arguments passed on.",
    note="Trusted: asyncio call_later/TimerHandle contract (runs once, not before when, never after cancel): 'on time' and 'exactly "
         "once' are this contract plus the invariant; float durations as reals, +inf encoded as 10^300; A-C08."),
  'C05': dict(
@@ -92,7 +92,7 @@ CLAIMS = {
         "persistence once the simulation is stopping; restore happens iff the entry exists and is not older than 'expiration'; "
         "unused keys are removed and 'edzed-*' kept; an FSM is restored without actions, its timer expiring at the same absolute time "
         "(real arithmetic over the loop/unix clocks), an expired state is discarded.  The obligation 'the timer callback clears the "
-        "fired handle' found the rejected-timed-event defect (saved expiry in the past), fixed in /repo.",
+        "fired handle' found the rejected-timed-event defect (saved expiry in the past), fixed in /repo. Default get_state (the output) with the Counter/Input round trip; TimeDate/TimeSpan: the saved state is the exported configuration and restoring is a reconfiguration with it.",
    note="Trusted: pyvc encoding, z3; SBlock.event (C11/C09), timer contracts (C04); the storage is a dict-like heap object; get_state() is "
         "a function of the block state; clock reads of _get_timediff simultaneous.  The save sites of run_forever (states and stop "
         "time written iff the start completed, before the blocks are stopped) and _init_sblocks_sync_2 are order-automaton obligations."),
@@ -181,7 +181,7 @@ CLAIMS = {
         "three interval kinds, convert_time_seq/convert_date_seq (length windows, zero defaults, range errors), _name_to_month (13-step "
         "loop unrolled) and _match_pattern (cutting a token out keeps its two sides apart) are executed from the real AST against the "
         "membership rules of the statement (left-closed/right-open with midnight wrap and equal endpoints = whole day; inclusive dates "
-        "wrapping at the year end; date-times never wrap); corner-case lemmas over the real order.",
+        "wrapping at the year end; date-times never wrap); corner-case lemmas over the real order. export_dt (one proof instance per value kind), convert_datetime_seq, _Interval._convert, and the lemma that numeric form -> object -> numeric form is the input padded with zeros.",
    note="Trusted: naive time/date/datetime values are totally ordered (order embedding into the reals); datetime constructors. "
         "Bounded (labelled): equivalence of the string notations, numeric/string round trips, weekday normalisation, malformed input - "
         "12.8k-case grid against the real parsers (regexes, strptime/fromisoformat are outside the verifier)."),
